@@ -382,7 +382,9 @@ func (x *Exec) applyUses(ce *Env, uses []Clause, tag string) {
 			// a use clause that mentions a local which does not exist on this path is skipped
 			defer func() {
 				if r := recover(); r != nil {
-					if ue, ok := r.(*UnsupportedError); ok && strings.Contains(ue.Msg, "unknown identifier") {
+					if ue, ok := r.(*UnsupportedError); ok && strings.Contains(ue.Msg, "unknown identifier") && !strings.HasPrefix(tag, "loop") {
+						// (inside a loop body every local the clause names must exist: a renamed local means
+						// the contract no longer binds, which is UNDECIDED, not a failed proof)
 						return
 					}
 					panic(r)
